@@ -3,7 +3,7 @@ import ast
 
 from . import scopes
 from ..core.report import DOMAIN_D
-from ..rules import roles, loops, eager, degree, frame, mirror, safediv, runmin, onsegment, sides
+from ..rules import roles, loops, eager, degree, frame, mirror, safediv, runmin, onsegment, sides, unpack
 from ..engines.signs import Signs, NONNEG, ZERO
 from .common import e1, e2
 
@@ -66,3 +66,4 @@ def run(idx, rep, tier):
     # inhomogeneities are C11/C12 matter (the fixed line_to_circle error kept its points on the primitives)
     dg, _ = degree.run_engine(idx, mods + ["distance3d.geometry", "distance3d.utils"], None)
     degree.r_return_degrees(idx, rep, dg)
+    unpack.r_unpack(idx, rep, floor=45)
